@@ -210,6 +210,19 @@ CLAIMED = {
          'sqrt(noise) * Ltrial (N Lchannel) with the recorded normal draws N. Spec oracles: descriptors, same / fresh signal.',
          'make_signal itself (random draw, LDL) is observed, not modelled; normal quantiles and Cholesky factors come from SciPy / NumPy.',
          'DESIGN.md section 7, C18'),
+    'C16': ('Coq proofs: HDF5 write / read of the dictionary form is the identity on content for every value of the supported universe '
+         '(by induction over nested values), existing-file guard as a state machine + in-Coq correspondence of the dictionary and object '
+         'round trips for all object kinds, both formats, paths and handles',
+         'Theorems: for any encoder / decoder pair that accepts every string (UTF-8), every value built from strings, numbers (NaN, inf), '
+         'None, arrays, homogeneous lists / tuples of any depth and nested dictionaries is written successfully and read back with exactly '
+         'the same shape and leaves; an encoder that rejects a string (ASCII) cannot store a list containing it; saving to an existing path '
+         'without overwrite is refused, on a fresh path it adds the file, with overwrite the path holds exactly the new object and no other '
+         'path changes. Correspondence (in Coq): read_dict_hdf5(write_dict_hdf5(d)) against the model for the dictionaries of RDMs, Dataset, '
+         'TemporalDataset, the four model classes and Result objects (incl. after structural operations), field-wise content of loaded vs '
+         'saved object (incl. test outputs of Results), save sequences with / without overwrite.',
+         'below the dictionary level (h5py, pickle) the libraries are trusted; mixed-type / ragged lists and lists with None are outside the '
+         'model (documented).',
+         'DESIGN.md section 7, C16'),
 }
 NA_REASON = 'check not built yet in this round (work in progress; see DESIGN.md section 7)'
 
